@@ -106,6 +106,7 @@ package utils
 //@ pure
 //@ ensures loc(result) == loc
 //@ ensures (hour == 0 && min == 0 && sec == 0 && nsec == 0) ==> abs(result) == civilDate(year, month, day, loc)
+//@ ensures (month == 1 && day == 1 && hour == 0 && min == 0 && sec == 0 && nsec == 0) ==> abs(result) == civilYearStart(year, loc)
 
 //@ func (time.Time).AddDate
 //@ trusted "stdlib time model: AddDate(0,0,d) moves by d civil days"
